@@ -66,4 +66,27 @@ theorem reuseLoop_translated (o : Oracle) (retry i : Nat) :
     cases hg : (forcedDial (o i)).get <;> cases hr : (forcedDial (o i)).res <;>
       cases hc : (forcedDial (o i)).ctxDone <;> simp
 
+/-- the DoH loop branches on exactly the translated condition (`connErr` = not a response error,
+    `reused` = the connection came from the pool, the model's `connErr` flag = `isQuicConnErr(err) ||
+    isHttp3Err(err)` — whichever way it splits into the two —, `ctx.Err() == nil` = the caller's context
+    is alive: the transport's own 6 s context outlives it) -/
+theorem dohLoop_translated (o : Oracle) (retry i : Nat) (quicErr h3Err : Bool)
+    (hsplit : (quicErr || h3Err) = (o i).connErr) :
+    dohLoop o retry i =
+      let a := o i
+      if a.ctxDone then ⟨none, i + 1⟩
+      else if !a.get.isErr && a.res.isSome then ⟨a.res, i + 1⟩
+      else if Translated.doh_retryCond (!a.respErr) (a.get == .pooled) quicErr h3Err retry (!a.ctxDone) then
+        dohLoop o (retry + 1) (i + 1)
+      else ⟨none, i + 1⟩ := by
+  rw [dohLoop]
+  unfold Translated.doh_retryCond
+  generalize o i = a at hsplit ⊢
+  cases a with
+  | mk g x c f fd ce re =>
+    simp only at hsplit
+    subst hsplit
+    by_cases h : retry < 3 <;> cases g <;> cases x <;> cases c <;> cases quicErr <;> cases h3Err <;> cases re <;>
+      simp [Get.isErr, h]
+
 end MosVerif.Retry
